@@ -11,7 +11,7 @@ def run(ctx):
     d = common.harness_json(["c20"], timeout=3000)
     common.gendir("C20")
     mon = common.report_monitor_violations(ctx, d)
-    ctx.oblige("dynamic pair monitor: on every certificate where both members of a pair run on the same content, the statuses agree (same status / finding iff finding / error implies finding)", not mon)
+    ctx.oblige("dynamic pair monitor: on every certificate where both members of a pair run on the same content, the statuses agree (same status / finding iff finding / error implies finding); listed known findings excepted", not mon)
     never = d["data"].get("pairs_never_exercised") or []
     ctx.oblige("every one of the %d pairs was exercised with both members running" % d["stats"].get("pairs", 0), not never, str(never))
     for p in never:
